@@ -40,28 +40,55 @@ FIRST_MISSED = {
     'C15-m3': 'missed by the C15 check of round 1 (no ORDER BY in pivot queries); caught after ORDER BY clauses before PIVOT BY were added to the generator',
     'C15-m2': 'missed by the first C15 check (only valid PIVOT BY references generated); caught after the invalid-reference stream was added (the C05 check also rejects it)',
 }
+def round_of(sid):
+    k = int(sid.split('-m')[1])
+    return (k + 1) // 2
+
+
 rows = []
-for d in sorted(glob.glob(os.path.join(HERE, 'seeded', 'C*-m*'))):
+for d in sorted(glob.glob(os.path.join(HERE, 'seeded', 'C*-m*')), key=lambda p: (os.path.basename(p).split('-')[0], int(os.path.basename(p).split('-m')[1]))):
     sid = os.path.basename(d)
     pid = sid.split('-')[0]
+    rnd = round_of(sid)
     notes = open(os.path.join(d, 'notes.md')).read() if os.path.exists(os.path.join(d, 'notes.md')) else ''
     files = sorted(set(re.findall(r'^\+\+\+ b/(\S+)', open(os.path.join(d, 'patch.diff')).read(), re.M)))
-    res = {}
+    res, first_pass = {}, None
     for f in glob.glob(os.path.join(d, 'result_*.json')):
+        key = os.path.basename(f)[7:-5]
         try:
-            res.update({os.path.basename(f)[7:-5]: json.load(open(f))})
+            r = json.load(open(f))
         except Exception:
-            pass
+            continue
+        if key.startswith('round'):
+            first_pass = r          # the run against the checks as they stood when the seed arrived
+        else:
+            res[key] = r            # final confirmation run(s), one per property check
+    if not res and first_pass is not None:
+        res = {p: first_pass for p in first_pass.get('checks', {})}
     caught = {p: bool(r['checks'].get(p, {}).get('violations')) for p, r in res.items()}
-    first = next(iter(res.values()), {})
+    first = next(iter(res.values()), {}) if res else (first_pass or {})
     det = ''
     for p, r in res.items():
         c = r['checks'].get(p, {})
         if c.get('detail'):
             det = c['detail'][0].strip()[:300]
     head = [l.strip('# ').strip() for l in notes.splitlines() if l.strip()][:1]
+    hist_file = os.path.join(d, 'history.txt')
+    missed_first = None
+    if first_pass is not None:
+        missed_first = not any(c.get('violations') for c in first_pass.get('checks', {}).values())
+    if sid in FIRST_MISSED:
+        history = FIRST_MISSED[sid]
+    elif os.path.exists(hist_file):
+        history = open(hist_file).read().strip()
+    elif rnd >= 4:
+        history = ('missed by the checks as they stood after round %d; see DESIGN 10.4' % (rnd - 1)) if missed_first \
+            else 'caught by the checks as they stood after round %d' % (rnd - 1)
+    else:
+        history = 'caught by the check as first built'
+    strengthened = sid in FIRST_MISSED or bool(missed_first)
     meta = {
-        'seed': sid, 'breaks_property': pid, 'files_changed': files,
+        'seed': sid, 'round': rnd, 'breaks_property': pid, 'files_changed': files,
         'summary': head[0] if head else '',
         'needs_to_manifest': 'see notes.md (written by the independent sub-agent that produced the change)',
         'confirmed': {
@@ -74,10 +101,10 @@ for d in sorted(glob.glob(os.path.join(HERE, 'seeded', 'C*-m*'))):
         },
         'checks_run': {p: ('VIOLATION reported' if c else 'not detected') for p, c in caught.items()},
         'first_violation_line': det,
-        'history': FIRST_MISSED.get(sid, 'caught by the check as first built'),
+        'history': history,
     }
     with open(os.path.join(d, 'meta.json'), 'w') as f:
         json.dump(meta, f, indent=1)
-    rows.append((sid, ', '.join(files), head[0][:90] if head else '', ', '.join(f'{p}: {"caught" if c else "MISSED"}' for p, c in caught.items()) + (' (after strengthening)' if sid in FIRST_MISSED else '')))
+    rows.append((sid, ', '.join(files), head[0][:90] if head else '', ', '.join(f'{p}: {"caught" if c else "MISSED"}' for p, c in caught.items()) + (' (after strengthening)' if strengthened else '')))
 for r in rows:
     print('| ' + ' | '.join(r) + ' |')
